@@ -867,6 +867,13 @@ impl<'a> Runner<'a> {
                     if let Some(f) = o_interpret(self.which, &ans) {
                         if f.direction == "internal" {
                             self.rep.fail("K", "oracle-internal", &f.what, case.to_json());
+                        } else if self.which == "oracle.c02" && has_uninhabited_composite(&case.sdl) {
+                            // Outside the domain of the reading of the emitted types (hypothesis `Hyp.inhabited` /
+                            // `CfgOk.inhabited` of the refinement theorems): a REQUIRED field of an interface / union type
+                            // with no possible object type is printed as `k: never`; TypeScript makes the record
+                            // uninhabited, the reading in Ts/SelSem.lean (written for the `k?: never` skip encoding) makes
+                            // the key absent, so the "admits" direction would be judged against the wrong reading.
+                            self.rep.count("out-of-domain:uninhabited-composite-type(Hyp.inhabited)");
                         } else {
                             self.report_o(case, &p, f);
                         }
@@ -878,6 +885,65 @@ impl<'a> Runner<'a> {
             eprintln!("batch of {}: prepare {:?} driver {:?} rest(shrink) {:?}", cases.len(), t1 - t0, t2 - t1, t2.elapsed());
         }
     }
+}
+
+/// does the schema text declare an interface that no object type implements, or a union without members?
+/// (textual scan of `interface N`, `type/extend type … implements A & B`, `union U = …`; enough for generated SDL)
+pub fn has_uninhabited_composite(sdl: &[String]) -> bool {
+    let text: String = sdl.join("\n");
+    let toks: Vec<&str> = text
+        .split(|c: char| c.is_whitespace() || c == ',' )
+        .filter(|t| !t.is_empty())
+        .collect();
+    let mut interfaces: Vec<String> = vec![];
+    let mut implemented: Vec<String> = vec![];
+    let mut i = 0;
+    while i < toks.len() {
+        let t = toks[i];
+        if t == "interface" && i + 1 < toks.len() && (i == 0 || toks[i - 1] != "extend") {
+            interfaces.push(toks[i + 1].trim_end_matches('{').to_string());
+        }
+        if t == "type" && i + 1 < toks.len() {
+            // object type (or its extension): names after `implements` up to `{` or `@`
+            let mut j = i + 2;
+            if j < toks.len() && toks[j] == "implements" {
+                j += 1;
+                while j < toks.len() {
+                    let w = toks[j];
+                    if w.starts_with('{') || w.starts_with('@') {
+                        break;
+                    }
+                    for n in w.split('&') {
+                        let n = n.trim_end_matches('{');
+                        if !n.is_empty() {
+                            implemented.push(n.to_string());
+                        }
+                    }
+                    if w.contains('{') {
+                        break;
+                    }
+                    j += 1;
+                }
+            }
+        }
+        if t == "union" && i + 1 < toks.len() && (i == 0 || toks[i - 1] != "extend") {
+            // `union U` / `union U =` with nothing that looks like a member name behind it
+            let mut j = i + 2;
+            while j < toks.len() && toks[j].starts_with('@') {
+                j += 1;
+            }
+            let has_members = j < toks.len() && toks[j].starts_with('=') && {
+                let rest = toks[j].trim_start_matches('=').trim_start_matches('|');
+                !rest.is_empty() || (j + 1 < toks.len() && toks[j + 1].chars().next().map_or(false, |c| c == '|' || c.is_alphabetic() || c == '_')
+                    && !["type", "interface", "union", "enum", "input", "scalar", "directive", "schema", "extend"].contains(&toks[j + 1]))
+            };
+            if !has_members && !text.contains(&format!("extend union {}", toks[i + 1])) {
+                return true;
+            }
+        }
+        i += 1;
+    }
+    interfaces.iter().any(|n| !implemented.contains(n))
 }
 
 // ---------------------------------------------------------------------------------------------
